@@ -93,6 +93,13 @@ class SSnap(Val):
     self.lenvar, self.cells, self.typ = lenvar, cells, typ
 
 
+class SSnap2(Val):
+  """snapshot of a dict's items: length variable, key cells, value cells"""
+
+  def __init__(self, lenvar, kcells, vcells, ktyp="int"):
+    self.lenvar, self.kcells, self.vcells, self.ktyp = lenvar, kcells, vcells, ktyp
+
+
 class SNs(Val):
   """namespace: attribute name -> Val (stands for a module or a simple object)"""
 
@@ -751,6 +758,20 @@ class Compiler:
       self.assign_target(s.target, SE(x, src.typ))
       self.loop_body(s, head, iv, [(br, "f")])
       return
+    if isinstance(src, SSnap2):
+      iv = self.var("i")
+      self.assign(iv, K(0))
+      head = self.label()
+      self.dyn += 1
+      br = self._emit(ir.Branch(cond=Cmp("lt", V(iv), V(src.lenvar)), t=None, f=None))
+      self.dangling = [(br, "t")]
+      kx, vx = K(0), K(0)
+      for j in reversed(range(len(src.kcells))):
+        kx = Ite(Cmp("eq", V(iv), K(j)), V(src.kcells[j]), kx)
+        vx = Ite(Cmp("eq", V(iv), K(j)), V(src.vcells[j]), vx)
+      self.assign_target(s.target, ST([SE(kx, src.ktyp), SE(vx)]))
+      self.loop_body(s, head, iv, [(br, "f")])
+      return
     if isinstance(src, SDictView):
       s0 = self.op(src.model, "iter", [])
       sv = self.var("size0")
@@ -923,6 +944,16 @@ class Compiler:
     for k, v in self.sc.by_identity:
       if k is py:
         return self.lift(v)
+    import threading
+    if isinstance(py, (type(threading.RLock()), type(threading.Lock()))):
+      # a module-level lock: one model per lock object, named after the global
+      fr = self.frames[-1]
+      modname = (fr.globs or {}).get("__name__", "?")
+      model = M.MRLock("lock.%s.%s" % (modname, name))
+      self.sc.add(model)
+      self.sc.by_identity.append((py, model))
+      self.sc.global_locks.append((modname, name, model.name))
+      return SO(model)
     return self.lift(py)
 
   def mangle(self, attr):
@@ -1246,8 +1277,13 @@ class Compiler:
     model = self.container_model(src)
     if isinstance(src, SDictView):
       model = src.model
+      if src.kind == "items":
+        dsts = self.op(model, "snapshot_items", [], want=2 * model.n + 1)
+        return SSnap2(dsts[0], dsts[1:model.n + 1], dsts[model.n + 1:], self.sc.dict_key_typ(model))
       dsts = self.op(model, "snapshot_" + src.kind, [], want=model.n + 1)
       return SSnap(dsts[0], dsts[1:], self.sc.dict_key_typ(model) if src.kind == "keys" else "int")
+    if isinstance(src, SSnap2):
+      return src
     if model is not None and model.cls == "deque":
       dsts = self.op(model, "snapshot", [], want=model.maxlen + 1)
       return SSnap(dsts[0], dsts[1:], self.sc.deque_elem_typ(model))
@@ -1364,6 +1400,8 @@ class Compiler:
 
   def b_isinstance(self, comp, args, kwargs):
     v, c = args
+    if isinstance(c, SI) and c.name in ("str", "int", "bool", "list"):
+      c = SClass({"str": str, "int": int, "bool": bool, "list": list}[c.name])
     if isinstance(v, SK) and isinstance(c, SClass):
       return self.lift(isinstance(v.py, c.cls))
     if isinstance(v, SE) and isinstance(c, SClass):
